@@ -63,6 +63,9 @@ Corpus ==
     \* a child that overrides one block with nothing and one with a comment only
     emptyblk |-> ("main" :> <<Extends(LS(NT.t1)), Block("bb", <<>>), Block("cc", <<Sym(1), PrintS(Var("x"))>>), Block("dd", <<Comment(<<32, 99, 32>>)>>)>>)
                 @@ ("t1" :> <<Sym(2), Block("bb", <<Sym(3)>>), Block("cc", <<Sym(4)>>), Block("dd", <<Sym(5)>>)>>),
+    \* an expression that ends in the closing brace of a hash, directly before the closing delimiter in the tight layout
+    condhash |-> ("main" :> <<Sym(1), PrintS(Cond(Var("x"), LI(5), Hash(<<LS(NT.a)>>, <<LI(1)>>))), Sym(2), Set("h", Hash(<<LS(NT.a)>>, <<Hash(<<LS(NT.b)>>, <<LI(6)>>)>>)), Sym(3),
+                               PrintS(Attr(Attr(Var("h"), "a"), "b"))>>),
     printnum |-> ("main" :> <<Sym(1), PrintS(LI(42)), Sym(2), PrintS(LI(7)), Sym(3), If1(LI(1), <<Sym(4)>>)>>)
   ]
 Ctx == ("x" :> VI(3)) @@ ("s" :> VS(<<97>>)) @@ ("ID" :> VI(11)) @@ ("id" :> VI(12)) @@ ("Class" :> VI(13)) @@ ("userName" :> VI(14)) @@ ("username" :> VI(15)) @@ ("A" :> VI(16))
